@@ -66,6 +66,8 @@ type LineAdj struct {
 	Amount   string `json:"amount,omitempty"`
 	Rate     string `json:"rate,omitempty"`     // charges only
 	Quantity string `json:"quantity,omitempty"` // charges only
+	// Bare leaves out the reason: the row is then described by its numbers alone
+	Bare bool `json:"bare,omitempty"`
 }
 
 // SubLine is a breakdown / substituted entry.
@@ -141,6 +143,9 @@ func lineAdjs(as []LineAdj, reason string) []any {
 	out := make([]any, 0, len(as))
 	for _, a := range as {
 		o := obj{"reason": reason}
+		if a.Bare {
+			o = obj{}
+		}
 		if a.Percent != "" {
 			o["percent"] = a.Percent
 		}
